@@ -869,6 +869,9 @@ CORPUS = [
             '    """\n    Walk the tree\n\n    :param root: where to start\n\n    :param depth: starting depth\n\n    :param leaves_only: skip inner nodes\n\n    :return: the nodes\n    """\n'
             '    # depth first\n    return [root]\n',
      "fmt": "rest", "type_annotations": True, "no_word_wrap": None},
+    # a docstring whose doctest opens and closes a triple-single-quoted string: a line of a triple-double-quoted docstring that ENDS in the other triple quote
+    {"src": '"""Greeting helpers"""\n\nimport os\n\nPREFIX = "hello "\n\n\ndef render(name):\n    """\n    Render the greeting, e.g.:\n\n    >>> text = \'\'\'\n    ... world\n    ... \'\'\'\n    >>> render(text)\n\n    :param name: who to greet\n    :type name: ```str```\n\n    :return: the greeting\n    :rtype: ```str```\n    """\n    # build it\n    return PREFIX + name\n\n\ndef shout(name, times=2):\n    """\n    Shout the greeting\n\n    :param name: who to greet\n    :type name: ```str```\n\n    :param times: how often\n    :type times: ```int```\n\n    :return: the greeting\n    :rtype: ```str```\n    """\n    return (PREFIX + name).upper() * times\n',
+     "fmt": "google", "type_annotations": False, "no_word_wrap": None},
     {"src": 'def pad(text: str, fill: str = "  ", sep: str = ",  ", *parts, wide: bool = False, **kw) -> str:\n'
             '    """\n    Pad it\n\n    :param text: the text\n\n    :param fill: filler\n\n    :param sep: separator\n\n    :param wide: wide\n\n    :return: padded\n    """\n    return text\n',
      "fmt": "google", "type_annotations": True, "no_word_wrap": None},
